@@ -35,8 +35,14 @@
 //!         paths (unit variants, hence disjoint) are sorted by pattern. Binders
 //!         in patterns print as `_`.
 //!      4. **Nothing recorded, nothing kept**: a loop / `if` / `match` / closure in
-//!         which no step is recorded leaves no marker (this is what removes the
-//!         drop bookkeeping, C03's subject: `emit_drop`, the live-variable lists).
+//!         which no step is recorded leaves no marker, and a call `self.helper(..)`
+//!         of a method of `Lowerer` that does nothing but drop bookkeeping is not a step (this
+//!         is what removes the drop bookkeeping, C03's subject: `emit_drop`, the
+//!         live-variable lists, a drop loop moved into a helper).
+//!      5. The last arm of a `match`, when it has no guard and binds nothing, prints
+//!         as `arm(_)` (a `match` is exhaustive: it takes whatever is left).
+//!    NOT tolerated (the theorem must be re-pinned): moving a sub-expression of a
+//!    recorded argument into a local of its own (the argument's text changes).
 use super::{Gen, Target};
 use crate::find;
 use quote::ToTokens;
@@ -64,7 +70,63 @@ fn ph(b: usize) -> String {
     format!("\u{27e6}{b}\u{27e7}")
 }
 
-struct Skel {
+/// the methods of `Lowerer` by name (both files), and which of them record nothing at all
+/// ("silent": pure bookkeeping helpers — a call of one is not a step)
+#[derive(Default)]
+pub struct Methods {
+    fns: HashMap<String, find::FnBody>,
+    silent: std::cell::RefCell<HashMap<String, bool>>,
+}
+
+impl Methods {
+    /// A bookkeeping helper: every call on `self` in its body is drop bookkeeping
+    /// (`DROP_BOOKKEEPING`, or another such helper), there is at least one, and the body
+    /// touches no field of `self` directly. (A leaf like `emit` / `new_block` / `tmp` is NOT
+    /// silent: it writes the block list or the temporary counter.)
+    fn is_silent(&self, name: &str) -> bool {
+        if let Some(b) = self.silent.borrow().get(name) {
+            return *b;
+        }
+        let Some(f) = self.fns.get(name) else { return false };
+        // while it is being computed (recursion) a method counts as not silent
+        self.silent.borrow_mut().insert(name.to_string(), false);
+        #[derive(Default)]
+        struct Uses {
+            calls: Vec<String>,
+            fields: bool,
+        }
+        impl<'ast> Visit<'ast> for Uses {
+            fn visit_expr_method_call(&mut self, m: &'ast syn::ExprMethodCall) {
+                if toks(&m.receiver) == "self" {
+                    self.calls.push(m.method.to_string());
+                    for a in &m.args {
+                        self.visit_expr(a);
+                    }
+                } else {
+                    syn::visit::visit_expr_method_call(self, m);
+                }
+            }
+            fn visit_expr_field(&mut self, f: &'ast syn::ExprField) {
+                if toks(&f.base) == "self" {
+                    self.fields = true;
+                }
+                syn::visit::visit_expr_field(self, f);
+            }
+        }
+        let mut u = Uses::default();
+        u.visit_block(&f.block);
+        let silent = !u.fields
+            && !u.calls.is_empty()
+            && u.calls.iter().all(|c| DROP_BOOKKEEPING.contains(&c.as_str()) || self.is_silent(c))
+            // … and nothing else is recorded in it (no `Value::…` it builds, for one)
+            && skeleton(f, self).is_empty();
+        self.silent.borrow_mut().insert(name.to_string(), silent);
+        silent
+    }
+}
+
+struct Skel<'m> {
+    methods: &'m Methods,
     out: Vec<String>,
     /// name → binding id, innermost scope last
     scopes: Vec<Vec<(String, usize)>>,
@@ -154,9 +216,9 @@ fn fix_placeholders(s: String) -> String {
     out
 }
 
-impl Skel {
-    fn new() -> Skel {
-        Skel { out: vec![], scopes: vec![vec![]], next_binding: 0, tail: false }
+impl<'m> Skel<'m> {
+    fn new(methods: &'m Methods) -> Skel<'m> {
+        Skel { methods, out: vec![], scopes: vec![vec![]], next_binding: 0, tail: false }
     }
 
     fn bind(&mut self, name: &str) {
@@ -199,13 +261,13 @@ impl Skel {
     }
 
     /// the steps recorded while running `f`, in a buffer of their own
-    fn sub(&mut self, f: impl FnOnce(&mut Skel)) -> Vec<String> {
+    fn sub(&mut self, f: impl FnOnce(&mut Skel<'m>)) -> Vec<String> {
         let saved = std::mem::take(&mut self.out);
         f(self);
         std::mem::replace(&mut self.out, saved)
     }
 
-    fn scoped<R>(&mut self, f: impl FnOnce(&mut Skel) -> R) -> R {
+    fn scoped<R>(&mut self, f: impl FnOnce(&mut Skel<'m>) -> R) -> R {
         self.scopes.push(vec![]);
         let r = f(self);
         self.scopes.pop();
@@ -219,9 +281,11 @@ impl Skel {
     }
 
     /// is the expression itself recorded as a step (the last one recorded when it is visited)?
-    fn is_step(e: &syn::Expr) -> bool {
+    fn is_step(&self, e: &syn::Expr) -> bool {
         match e {
-            syn::Expr::MethodCall(m) => toks(&m.receiver) == "self" && !DROP_BOOKKEEPING.contains(&m.method.to_string().as_str()),
+            syn::Expr::MethodCall(m) => {
+                toks(&m.receiver) == "self" && !DROP_BOOKKEEPING.contains(&m.method.to_string().as_str()) && !self.methods.is_silent(&m.method.to_string())
+            }
             syn::Expr::Struct(s) => toks(&s.path).starts_with("Value::"),
             syn::Expr::Call(c) => toks(&c.func).ends_with("Expr::BinOp"),
             _ => false,
@@ -248,7 +312,7 @@ impl Skel {
                         self.expr_in(&init.expr, false);
                         // `let x = <recorded step>`: the step is written `x=step`, so that the skeleton
                         // keeps which later argument is the result of which earlier step
-                        defines = self.out.len() > before && Self::is_step(&init.expr) && init.diverge.is_none();
+                        defines = self.out.len() > before && self.is_step(&init.expr) && init.diverge.is_none();
                         if let Some((_, div)) = &init.diverge {
                             let d = self.sub(|s| s.expr_in(div, false));
                             if !d.is_empty() {
@@ -424,7 +488,7 @@ impl Skel {
     }
 }
 
-impl<'ast> Visit<'ast> for Skel {
+impl<'ast, 'm> Visit<'ast> for Skel<'m> {
     fn visit_expr(&mut self, e: &'ast syn::Expr) {
         let tail = std::mem::replace(&mut self.tail, false);
         match e {
@@ -476,6 +540,23 @@ impl<'ast> Visit<'ast> for Skel {
                 if plain_paths {
                     // unit variants: disjoint, so the order of the arms means nothing
                     arms.sort();
+                }
+                // a `match` is exhaustive: its last arm, when it has no guard and binds nothing, takes
+                // whatever is left — the same as `_` (so `Some(x) => A, None => B` is `if let Some(x) … else B`)
+                if let (Some(last_arm), Some(last)) = (m.arms.last(), arms.last_mut()) {
+                    let mut names = vec![];
+                    struct B<'a>(&'a mut Vec<String>);
+                    impl<'ast> Visit<'ast> for B<'_> {
+                        fn visit_pat_ident(&mut self, i: &'ast syn::PatIdent) {
+                            if binder_like(&i.ident.to_string()) {
+                                self.0.push(i.ident.to_string());
+                            }
+                        }
+                    }
+                    B(&mut names).visit_pat(&last_arm.pat);
+                    if last_arm.guard.is_none() && names.is_empty() && !plain_paths {
+                        last.0 = "_".to_string();
+                    }
                 }
                 self.out.push(format!("match({})", self.render(&m.expr)));
                 for (p, s) in arms {
@@ -549,6 +630,10 @@ impl<'ast> Visit<'ast> for Skel {
                 let name = m.method.to_string();
                 if DROP_BOOKKEEPING.contains(&name.as_str()) {
                     // drop bookkeeping is C03's subject and has no effect on the order of host calls
+                    return;
+                }
+                if recv == "self" && self.methods.is_silent(&name) {
+                    // a helper of `Lowerer` in which nothing is recorded (pure bookkeeping): not a step
                     return;
                 }
                 if recv == "self" {
@@ -665,8 +750,8 @@ fn lean_str(s: &str) -> String {
 }
 
 /// the finished skeleton of one function
-pub fn skeleton(f: &find::FnBody) -> Vec<String> {
-    let mut sk = Skel::new();
+pub fn skeleton(f: &find::FnBody, methods: &Methods) -> Vec<String> {
+    let mut sk = Skel::new(methods);
     for a in &f.sig.inputs {
         if let syn::FnArg::Typed(t) = a {
             sk.bind_pat(&t.pat);
@@ -680,6 +765,29 @@ fn lower_order(repo: &Path) -> Result<String, String> {
     let mut out = String::new();
     out.push_str("/- GENERATED by /verif/extract from src/mir/lower.rs and src/mir/lower/match_expr.rs — do not edit.\n   The step skeleton of the lowering functions (see extract/src/targets/c08.rs). -/\nnamespace RotoV.Gen.LowerOrder\n\n");
     let mut cache: Vec<(String, syn::File)> = vec![];
+    // every method of `Lowerer` (for the "silent helper" rule)
+    let mut methods = Methods::default();
+    for file in ["src/mir/lower.rs", "src/mir/lower/match_expr.rs"] {
+        let parsed = find::parse(repo, file)?;
+        struct All<'a>(&'a mut Methods, bool);
+        impl<'ast> Visit<'ast> for All<'_> {
+            fn visit_item_impl(&mut self, i: &'ast syn::ItemImpl) {
+                let ty = i.self_ty.to_token_stream().to_string().replace(' ', "");
+                let old = std::mem::replace(&mut self.1, ty.starts_with("Lowerer") && i.trait_.is_none());
+                syn::visit::visit_item_impl(self, i);
+                self.1 = old;
+            }
+            fn visit_impl_item_fn(&mut self, f: &'ast syn::ImplItemFn) {
+                // hooks are not part of the lowering
+                let hook = f.attrs.iter().any(|a| a.to_token_stream().to_string().contains("verif-hooks"));
+                if self.1 && !hook {
+                    self.0.fns.insert(f.sig.ident.to_string().trim_start_matches("r#").to_string(), find::FnBody { sig: f.sig.clone(), block: f.block.clone(), impl_of: None });
+                }
+            }
+        }
+        All(&mut methods, false).visit_file(&parsed);
+        cache.push((file.to_string(), parsed));
+    }
     for (lean, file, func) in FUNCS {
         if !cache.iter().any(|(f, _)| f == file) {
             cache.push((file.to_string(), find::parse(repo, file)?));
@@ -689,7 +797,7 @@ fn lower_order(repo: &Path) -> Result<String, String> {
         let f = find::func(parsed, func, Some("Lowerer"))
             .or_else(|_| find::func(parsed, &format!("r#{func}"), Some("Lowerer")))
             .map_err(|e| format!("{file}: {e}"))?;
-        let steps = skeleton(&f);
+        let steps = skeleton(&f, &methods);
         if steps.is_empty() {
             return Err(format!("{file}: {func}: empty skeleton"));
         }
